@@ -489,7 +489,7 @@ fn cmd_check(args: &[String]) -> i32 {
 			"harness_errors": harness_errors,
 			"real_vs_stub": {
 				"real": "every line of parity-db incl. the four worker loops, wait/signal protocol, throttling, store_err/shutdown path, real files on tmpfs",
-				"stub": "parking_lot primitives -> shuttle's (through the crate's own loom shim: upgradable_read is a write lock, guard projections copy), std::thread::spawn of the workers -> harness-spawned shuttle threads running the same worker functions; std atomics are not scheduling points",
+				"stub": "parking_lot primitives -> shuttle's (Mutex and Condvar through the crate's own loom shim; RwLock through the verification shim of hook H5, in which an upgradable read coexists with readers as in parking_lot - the crate's own shim maps it to a write lock; guard projections copy), std::thread::spawn of the workers -> harness-spawned shuttle threads running the same worker functions; std atomics are not scheduling points",
 			},
 		},
 		"assumptions": [
